@@ -16,6 +16,7 @@ require (
 	golang.org/x/crypto v0.0.0-20200728195943-123391ffb6de // indirect
 	golang.org/x/sys v0.0.0-20200808120158-1030fc2bf1d9 // indirect
 	gopkg.in/karalabe/cookiejar.v2 v2.0.0-20150724131613-8dcd6a7f4951 // indirect
+	gopkg.in/urfave/cli.v1 v1.20.0 // indirect
 )
 
 replace github.com/LemoFoundationLtd/lemochain-core => /repo
